@@ -208,6 +208,12 @@ def examine(ctx, cases, n_near=0):
                         ctx.violation('C09:wrong-spectral-line', f'{i!r} at w={ws[kk]}: V {X[kk]} I {I[kk]} vs exact '
                                       f'{complex(s[0]["v"][i])} {complex(s[0]["i"][i])}', rep)
                         break
+            for nlab in nodes:
+                _, P = fd.get_potential(nlab)
+                for kk, s in enumerate(sols):
+                    if abs(P[kk] - complex(s[0]['phi'][nlab])) > tol * scale_v:
+                        ctx.violation('C09:wrong-spectral-line', f'potential of {nlab!r} at w={ws[kk]}: {P[kk]} vs exact {complex(s[0]["phi"][nlab])}', rep)
+                        break
             for kk, w in enumerate(ws):
                 line_jobs.append((case, comps, w, True))
                 line_ix.append((k, kk, fd, ids, scale_v, scale_i, tol, rep))
@@ -216,11 +222,13 @@ def examine(ctx, cases, n_near=0):
         # two-sided
         try:
             fd2 = FrequencyDomainSolution(circuit, w_max=wmax, one_sided=False)
-            for i in ids[:3]:
-                wv, X = fd2.get_voltage(i)
+            two_sided = [(fd2.get_voltage, 'v', i, scale_v) for i in ids[:3]] + [(fd2.get_current, 'i', i, scale_i) for i in ids[:3]] + \
+                [(fd2.get_potential, 'phi', n, scale_v) for n in nodes[:2]]
+            for getter, key, i, sc2 in two_sided:
+                wv, X = getter(i)
                 want = {}
                 for kk, s_ in enumerate(sols):
-                    xk = complex(s_[0]['v'][i])
+                    xk = complex(s_[0][key][i])
                     if ws[kk] == 0:
                         want[0.0] = xk
                     else:
@@ -228,9 +236,9 @@ def examine(ctx, cases, n_near=0):
                         want[-ws[kk]] = xk.conjugate() / 2
                 got = {float(a): complex(b) for a, b in zip(wv, X)}
                 ok = sorted(got) == sorted(want) and list(wv) == sorted(wv) and len(got) == len(wv) and \
-                    all(abs(got[a] - want[a]) <= tol * scale_v for a in want)
+                    all(abs(got[a] - want[a]) <= tol * sc2 for a in want)
                 if not ok:
-                    ctx.violation('C09:two-sided-spectrum-wrong', f'{i!r}: w {list(wv)} X {list(X)}; expected {want}', rep)
+                    ctx.violation('C09:two-sided-spectrum-wrong', f'{getter.__name__}({i!r}): w {list(wv)} X {list(X)}; expected {want}', rep)
                     break
         except Exception as e:  # noqa: BLE001
             ctx.violation(f'C09:two-sided-spectrum-raises-{type(e).__name__}', f'FrequencyDomainSolution(one_sided=False): {e}', rep)
